@@ -1,87 +1,12 @@
 /-
-On a 0-based integer index the label lookups of `_hampel_filter` coincide with positional reads;
-the positional filter commutes with shifting the index.
+The Hampel filter of the model (positional windows, repo commit bc08df8) commutes with shifting
+the index; its loop keeps labels and length.
 -/
 import SkVerif.Model.SeriesTransform
-import SkVerif.Spec.HampelPos
 import SkVerif.Lemmas.SeriesShift
 namespace SkVerif.Lem.ST
 open SkVerif SkVerif.ST
 
-/-- labels `s, s+1, …` -/
-def BasedAt (s : Nat) (z : Series) : Prop := ∀ i (h : i < z.length), (z[i]).1 = ((s + i : Nat) : Int)
-
-theorem basedAt_tail (s : Nat) (p : Int × Val) (z : Series) (h : BasedAt s (p :: z)) : BasedAt (s + 1) z := by
-  intro i hi
-  have := h (i + 1) (by simp only [List.length_cons]; omega)
-  simp only [List.getElem_cons_succ] at this
-  rw [this]
-  congr 1
-  omega
-
-theorem filter_label (s : Nat) (z : Series) (h : BasedAt s z) (k : Nat) :
-    z.filter (fun p => decide (p.1 = (k : Int)))
-      = if hk : s ≤ k ∧ k - s < z.length then [z[k - s]'hk.2] else [] := by
-  induction z generalizing s with
-  | nil => simp
-  | cons p z ih =>
-    have hp : p.1 = (s : Int) := by
-      have := h 0 (by simp)
-      simpa using this
-    have ih' := ih (s + 1) (basedAt_tail s p z h)
-    simp only [List.filter_cons, hp]
-    by_cases hks : k = s
-    · subst hks
-      simp only [decide_true, ↓reduceIte, ih', Nat.le_refl, Nat.sub_self, List.length_cons,
-        Nat.zero_lt_succ, and_self, ↓reduceDIte, List.getElem_cons_zero, List.cons.injEq, true_and]
-      simp
-    · have hne : ¬ ((s : Int) = (k : Int)) := by omega
-      simp only [hne, decide_false, Bool.false_eq_true, ↓reduceIte, ih', List.length_cons]
-      by_cases hk : s ≤ k ∧ k - s < z.length + 1
-      · have hk' : s + 1 ≤ k ∧ k - (s + 1) < z.length := by omega
-        simp only [hk, hk', and_self, ↓reduceDIte, List.cons.injEq, and_true]
-        have e : k - s = (k - (s + 1)) + 1 := by omega
-        simp only [e, List.getElem_cons_succ]
-      · have hk' : ¬ (s + 1 ≤ k ∧ k - (s + 1) < z.length) := by omega
-        simp [hk, hk']
-
-theorem filter_label_zero (z : Series) (h : BasedAt 0 z) (k : Nat) (hk : k < z.length) :
-    z.filter (fun p => decide (p.1 = (k : Int))) = [z[k]] := by
-  rw [filter_label 0 z h k, dif_pos ⟨Nat.zero_le _, by simpa using hk⟩]
-  simp
-
-theorem lookupLabels_zero_based (z : Series) (h : BasedAt 0 z) (ks : List Nat) (hks : ∀ k ∈ ks, k < z.length) :
-    lookupLabels z (ks.map (fun (k : Nat) => ((k : Nat) : Int))) = .ok (ks.map (fun k => (z[k]?).bind (·.2))) := by
-  induction ks with
-  | nil => rfl
-  | cons k ks ih =>
-    have hk := hks k List.mem_cons_self
-    have ih' := ih (fun k' hk' => hks k' (List.mem_cons_of_mem _ hk'))
-    simp only [List.map_cons, lookupLabels]
-    rw [filter_label_zero z h k hk]
-    simp only [ih', Except.map, List.map_cons, List.map_nil, List.singleton_append,
-      List.getElem?_eq_getElem hk, Option.bind_some]
-
-theorem windowVals_eq (z : Series) (a w : Nat) (haw : a + w ≤ z.length) :
-    windowVals z a w = (List.range w).map (fun i => (z[a + i]?).bind (·.2)) := by
-  unfold windowVals
-  apply List.ext_getElem?
-  intro i
-  by_cases hi : i < w
-  · simp only [List.getElem?_map, List.getElem?_take, hi, ↓reduceIte, List.getElem?_drop,
-      List.getElem?_range hi, Option.map_some]
-    have : a + i < z.length := by omega
-    simp [List.getElem?_eq_getElem this]
-  · rw [List.getElem?_eq_none (by simp; omega), List.getElem?_eq_none (by simp; omega)]
-
-theorem lookup_window (z : Series) (h : BasedAt 0 z) (a w : Nat) (haw : a + w ≤ z.length) :
-    lookupLabels z ((List.range w).map (fun i => ((a + i : Nat) : Int))) = .ok (windowVals z a w) := by
-  have := lookupLabels_zero_based z h ((List.range w).map (fun i => a + i))
-    (by intro k hk; simp only [List.mem_map, List.mem_range] at hk; obtain ⟨i, hi, rfl⟩ := hk; omega)
-  simp only [List.map_map, Function.comp_def] at this
-  rw [this, windowVals_eq z a w haw]
-
--- the loop body keeps labels and length -------------------------------------------------------
 theorem setPos_length (z : Series) (j : Nat) (v : Val) : (setPos z j v).length = z.length := by
   induction z generalizing j with
   | nil => rfl
@@ -108,57 +33,25 @@ theorem hampelBody_labels (cfg : HampelCfg) (z : Series) (a : Nat) (vs : List Va
     simp only [List.foldl_cons]
     rw [ih, setPos_labels]
 
-theorem basedAt_of_labels (s : Nat) (z z' : Series) (hl : labels z' = labels z) (h : BasedAt s z) : BasedAt s z' := by
-  intro i hi
-  have hlen : z'.length = z.length := by
-    have := congrArg List.length hl; simpa [labels] using this
-  have hi' : i < z.length := by omega
-  have := h i hi'
-  have e : (z'[i]).1 = (z[i]).1 := by
-    have h1 : (labels z')[i]? = (labels z)[i]? := by rw [hl]
-    simp only [labels, List.getElem?_map, List.getElem?_eq_getElem hi, List.getElem?_eq_getElem hi',
-      Option.map_some, Option.some.injEq] at h1
-    exact h1
-  rw [e, this]
+theorem foldl_hampelWindow_labels (cfg : HampelCfg) (as : List Nat) (z : Series) :
+    labels (as.foldl (fun cur a => hampelWindow cfg cur a) z) = labels z := by
+  induction as generalizing z with
+  | nil => rfl
+  | cons a as ih =>
+    simp only [List.foldl_cons]
+    rw [ih]
+    exact hampelBody_labels cfg z a _
 
-/-- **on a 0-based index the code's label lookups are positional**: `_hampel_filter` computes exactly
-the positional filter `hampelPos`. -/
-theorem hampel_eq_hampelPos (cfg : HampelCfg) (z : Series) (h : BasedAt 0 z) :
-    hampel cfg z = hampelPos cfg z := by
-  unfold hampel hampelPos
-  split
-  · rfl
-  · split
-    · rfl
-    · rename_i hw hn
-      have key : ∀ (as : List Nat) (cur : Series), BasedAt 0 cur → cur.length = z.length →
-          (∀ a ∈ as, a + cfg.w ≤ z.length) →
-          as.foldl (fun (acc : Except Err Series) a => match acc with
-            | Except.error e => Except.error e
-            | Except.ok cur => hampelWindow cfg cur a) (Except.ok cur)
-          = Except.ok (as.foldl (fun cur a => hampelWindowPos cfg cur a) cur) := by
-        intro as
-        induction as with
-        | nil => intro cur _ _ _; rfl
-        | cons a as ih =>
-          intro cur hb hlen has
-          simp only [List.foldl_cons]
-          have ha := has a List.mem_cons_self
-          have hstep : hampelWindow cfg cur a = .ok (hampelWindowPos cfg cur a) := by
-            unfold hampelWindow hampelWindowPos
-            rw [lookup_window cur hb a cfg.w (by omega)]
-          rw [hstep]
-          have hl := hampelBody_labels cfg cur a (windowVals cur a cfg.w)
-          apply ih
-          · exact basedAt_of_labels 0 cur _ hl hb
-          · have := congrArg List.length hl
-            simp only [labels, List.length_map] at this
-            unfold hampelWindowPos; omega
-          · exact fun a' ha' => has a' (List.mem_cons_of_mem _ ha')
-      apply key _ z h rfl
-      intro a ha
-      simp only [List.mem_range] at ha
-      omega
+/-- the filter returns exactly the input's index -/
+theorem hampel_labels (cfg : HampelCfg) (z out : Series) (h : hampel cfg z = .ok out) : labels out = labels z := by
+  unfold hampel at h
+  split at h
+  · simp at h
+  · split at h
+    · simp at h
+    · simp only [Except.ok.injEq] at h
+      rw [← h]
+      exact foldl_hampelWindow_labels cfg _ z
 
 -- the positional filter commutes with shifting the index --------------------------------------
 theorem setPos_shift (c : Int) (z : Series) (j : Nat) (v : Val) :
@@ -194,22 +87,22 @@ theorem windowVals_shift (c : Int) (z : Series) (a w : Nat) : windowVals (shiftS
   rw [← List.map_drop, ← List.map_take, List.map_map]
   rfl
 
-theorem foldl_hampelWindowPos_shift (cfg : HampelCfg) (c : Int) (as : List Nat) (z : Series) :
-    as.foldl (fun cur a => hampelWindowPos cfg cur a) (shiftSeries c z)
-      = shiftSeries c (as.foldl (fun cur a => hampelWindowPos cfg cur a) z) := by
+theorem foldl_hampelWindow_shift (cfg : HampelCfg) (c : Int) (as : List Nat) (z : Series) :
+    as.foldl (fun cur a => hampelWindow cfg cur a) (shiftSeries c z)
+      = shiftSeries c (as.foldl (fun cur a => hampelWindow cfg cur a) z) := by
   induction as generalizing z with
   | nil => rfl
   | cons a as ih =>
     simp only [List.foldl_cons]
-    have : hampelWindowPos cfg (shiftSeries c z) a = shiftSeries c (hampelWindowPos cfg z a) := by
-      unfold hampelWindowPos
+    have : hampelWindow cfg (shiftSeries c z) a = shiftSeries c (hampelWindow cfg z a) := by
+      unfold hampelWindow
       rw [windowVals_shift, hampelBody_shift]
     rw [this, ih]
 
 /-- the positional Hampel filter is shift-equivariant (for every origin, every constant) -/
-theorem hampelPos_shift (cfg : HampelCfg) (c : Int) (z : Series) :
-    hampelPos cfg (shiftSeries c z) = (hampelPos cfg z).map (shiftSeries c) := by
-  unfold hampelPos
+theorem hampel_shift (cfg : HampelCfg) (c : Int) (z : Series) :
+    hampel cfg (shiftSeries c z) = (hampel cfg z).map (shiftSeries c) := by
+  unfold hampel
   rw [length_shift]
   split
   · rfl
@@ -217,6 +110,6 @@ theorem hampelPos_shift (cfg : HampelCfg) (c : Int) (z : Series) :
     · rfl
     · simp only [Except.map]
       congr 1
-      exact foldl_hampelWindowPos_shift cfg c _ z
+      exact foldl_hampelWindow_shift cfg c _ z
 
 end SkVerif.Lem.ST
